@@ -63,6 +63,7 @@ def required_cells(tier):
                 "attr:temperature": 1, "attr:cutoff": 1, "attr:zeta": 1,
                 "attr:cutoff_type": 1, "attr:j_function": 1,
                 "attr:pttebd_parameters": 1, "attr:bath_before_change": 2,
+                "attr:updated-on-bath.correlations": 3,
                 "immutability_snapshots": 200})
     return req
 
@@ -80,7 +81,7 @@ def cases(tier, seed):
                         "rep": rep, "tier": tier})
     for i in range(8 if tier == "quick" else 60):
         out.append({"kind": "history", "seed": seed, "idx": i, "tier": tier})
-    for i in range(8 if tier == "quick" else 40):
+    for i in range(16 if tier == "quick" else 48):
         out.append({"kind": "attr", "seed": seed, "idx": i, "tier": tier})
     return out
 
@@ -501,20 +502,29 @@ def run_history(case):
     kick2 = scen.random_superop(gen.rng_for(case["seed"], "c20hk2", i), d,
                                 "channel")
 
-    def make_control():
+    kick3 = scen.random_superop(gen.rng_for(case["seed"], "c20hk3", i), d,
+                                "unitary")
+
+    def make_control(rev=False):
+        # three time-stamped controls that fall into one step on the
+        # dt = 0.1 grids (two steps on the dt = 0.05 grid) and act in
+        # chronological order; the shared object gets them in reverse order
+        # of their times, the fresh ones chronologically: equal content
         c = oqupy.Control(d)
-        c.add_single(0.2, kick.copy())          # float time
-        c.add_single(1, kick2.copy(), post=True)  # int step
+        stamped = [(0.17, kick2), (0.2, kick), (0.22, kick3)]
+        for t_, k_ in (stamped[::-1] if rev else stamped):
+            c.add_single(t_, k_.copy())             # float times
+        c.add_single(1, kick2.copy(), post=True)    # int step
         return c
 
-    def fresh():
+    def fresh(rev=False):
         corr = gen.make_power_law(sdp) if i % 2 else gen.make_custom_sd(sdp)
         return dict(corr=corr, bath=oqupy.Bath(o.copy(), corr),
                     sysm=oqupy.System(h.copy(), [0.1], [lop.copy()]),
                     params=oqupy.TempoParameters(dt=dt, epsrel=1e-8, dkmax=2),
                     psys=oqupy.ParameterizedSystem(lambda x: x * h),
                     tparams=oqupy.PtTebdParameters(dt=dt, epsrel=1e-9),
-                    control=make_control())
+                    control=make_control(rev))
 
     def make_pt(ob):
         return oqupy.pt_tempo_compute(ob["bath"], 0.0, end, ob["params"],
@@ -843,7 +853,7 @@ def run_history(case):
         # the first eight histories are fixed (every kind of operation is
         # met in every run); the others are seeded random sequences
         seq = forced[i]
-    shared = fresh()
+    shared = fresh(rev=True)
     shared_pt = make_pt(shared)
     violations = []
     worst = 0.0
@@ -1003,6 +1013,14 @@ def run_attr(case):
         ref_dyn = np.array(oqupy.Tempo(sysm, oqupy.Bath(o, mk(p)), params,
                                        rho0, 0.0).compute(
             lib.end_time(0.0, dt, 3), progress_type="silent").states)
+        # the object that is updated: the caller's own correlations object,
+        # or the one the bath hands out (bath.correlations), adapted to
+        # derive a variant of the bath ("the same bath, but hotter")
+        handout = bool((i // 8) % 2 == 1)
+        if handout:
+            corr = bath_before.correlations
+            observe(corr)
+            cells.append("attr:updated-on-bath.correlations")
         # the update
         p2 = dict(p)
         if attr == "alpha":
